@@ -43,7 +43,7 @@ func vp_C15_invite() {
 	}
 	invited := vpBob // @b:x - local server is x
 	prev, auth := []string{"$p1:y"}, []string{"$a1:y"}
-	if verImpl.EventIDFormat() != EventIDFormatV1 {
+	if vpSpecTraits(ver).idFormat != EventIDFormatV1 {
 		prev = []string{"$0123456789012345678901234567890123456789abc"}
 		auth = []string{"$0123456789012345678901234567890123456789abd"}
 	}
